@@ -52,6 +52,16 @@ CHECKS["C07"] = dict(
     technique="Lean 4 proof (omega calendar, model of validate_query and default-time-dimension rule) + correspondence + roll-up oracle on DuckDB",
 )
 
+CHECKS["C04"] = dict(
+    category="proof",
+    text="Lean 4 theorems on the single-model generator model and the reference semantics: a conjunction and the list of its conjuncts give the SAME plan (C04_and_split); permuting filters leaves the groups unchanged; "
+         "the CTE's pushed-down WHERE is exactly the spec's row filter (pushdown soundness, via C01_grouped); a segment is its defining predicate; metric-level filters only change that metric (groups independent of the metric list; CASE WHEN inside the raw column); "
+         "metric-value filters are applied to the aggregated rows (generalised fusion theorem with HAVING). Tie: C01 arms on filter/segment-heavy cases; metamorphic variants (conjunction/list, permuted, segment/predicate, with/without filtered companion) on the real code.",
+    design_ref="DESIGN.md §4 C04",
+    note="Filters on joined models (LEFT→INNER switch) are handled under C02/C03, not here. Quote-splitting loop abstracted by the AST model (hostile literals exercised by correspondence). One genuine defect found and fixed (parentheses lost by flatten()).",
+    technique="Lean 4 proof (plan equality, fusion with HAVING, spec invariance) + correspondence + metamorphic variants on DuckDB",
+)
+
 NOT_APPLICABLE = {}
 
 
